@@ -286,6 +286,12 @@ fn be_decimal(rng: &mut Rng, maxlen: usize) -> Vec<u8> {
 
 /// A conforming (canonical) value term for schema term `s`.
 pub fn value_for(rng: &mut Rng, s: &J, env: &HashMap<String, J>, depth: usize) -> J {
+    value_fuel(rng, s, env, depth, 6)
+}
+
+/// `fuel` bounds how many references are followed (recursive schemas): when it is used up, unions take a
+/// branch that is not a reference and arrays/maps of references are empty.
+fn value_fuel(rng: &mut Rng, s: &J, env: &HashMap<String, J>, depth: usize, fuel: usize) -> J {
     let k = sk(s);
     if INT_KINDS.contains(&k) {
         return json!({"t":k,"n":le8(boundary_i32(rng) as i64)});
@@ -312,16 +318,19 @@ pub fn value_for(rng: &mut Rng, s: &J, env: &HashMap<String, J>, depth: usize) -
         }
         "union" => {
             let bs = s["branches"].as_array().unwrap();
-            let i = rng.below(bs.len());
-            json!({"t":"union","i":i,"v":value_for(rng, &bs[i], env, depth)})
+            let mut i = rng.below(bs.len());
+            if fuel == 0 && sk(&bs[i]) == "ref" {
+                i = bs.iter().position(|b| sk(b) != "ref").unwrap_or(i);
+            }
+            json!({"t":"union","i":i,"v":value_fuel(rng, &bs[i], env, depth, fuel)})
         }
         "array" => {
-            let n = if depth == 0 { 0 } else { *rng.pick(&[0usize, 1, 2, 3, 5]) };
-            let items: Vec<J> = (0..n).map(|_| value_for(rng, &s["items"], env, depth - 1)).collect();
+            let n = if depth == 0 || (fuel == 0 && sk(&s["items"]) == "ref") { 0 } else { *rng.pick(&[0usize, 1, 2, 3, 5]) };
+            let items: Vec<J> = (0..n).map(|_| value_fuel(rng, &s["items"], env, depth - 1, fuel)).collect();
             json!({"t":"array","items":items})
         }
         "map" => {
-            let n = if depth == 0 { 0 } else { *rng.pick(&[0usize, 1, 2, 3]) };
+            let n = if depth == 0 || (fuel == 0 && sk(&s["values"]) == "ref") { 0 } else { *rng.pick(&[0usize, 1, 2, 3]) };
             let keys = ["", "k", "key2", "é", "a b", "\u{1F600}"];
             let mut used = vec![];
             let mut entries = vec![];
@@ -329,19 +338,19 @@ pub fn value_for(rng: &mut Rng, s: &J, env: &HashMap<String, J>, depth: usize) -
                 let key = *rng.pick(&keys);
                 if used.contains(&key) { continue; }
                 used.push(key);
-                entries.push(json!([bytes_j(key.as_bytes()), value_for(rng, &s["values"], env, depth - 1)]));
+                entries.push(json!([bytes_j(key.as_bytes()), value_fuel(rng, &s["values"], env, depth - 1, fuel)]));
             }
             json!({"t":"map","entries":entries})
         }
         "record" => {
             let fs: Vec<J> = s["fields"].as_array().unwrap().iter()
-                .map(|f| json!([f["name"], value_for(rng, &f["type"], env, depth.saturating_sub(1))]))
+                .map(|f| json!([f["name"], value_fuel(rng, &f["type"], env, depth.saturating_sub(1), fuel)]))
                 .collect();
             json!({"t":"record","fields":fs})
         }
         "ref" => {
             let target = env.get(s["name"].as_str().unwrap()).expect("ref target").clone();
-            value_for(rng, &target, env, depth.saturating_sub(1))
+            value_fuel(rng, &target, env, depth.saturating_sub(1), fuel.saturating_sub(1))
         }
         "decimal" => {
             let maxlen = if s["base"].as_str() == Some("fixed") { s["size"].as_u64().unwrap() as usize } else { 10 };
